@@ -527,7 +527,7 @@ def replay_file(chk: "Check", path: str, replay_fn=None) -> int:
     if replay_fn is not None:
         replay_fn(chk, data)
     elif rp.get("kind") == "rejected_trace":
-        chk.tv(rp["trace_spec"], [rp["trace"]], tag="replay")
+        chk.tv(rp["trace_spec"], [rp["trace"]], tag="replay", cfg_extra=rp.get("cfg_extra", ""))
     elif rp.get("kind") == "tlc_counterexample":
         chk.mc(rp["module"], rp["cfg"], tag="replay")
     else:
